@@ -3,6 +3,10 @@ package c13
 import (
 	"context"
 	"fmt"
+	"strings"
+
+	"google.golang.org/protobuf/reflect/protoreflect"
+	"google.golang.org/protobuf/types/dynamicpb"
 
 	"github.com/cloudwego/dynamicgo/conv"
 	"github.com/cloudwego/dynamicgo/conv/j2p"
@@ -35,9 +39,84 @@ func init() {
 					})
 				}})
 			}
+			gs = append(gs, Group{Name: "length-prefix-sweep", Enum: func(tier string, yield func(core.Case) bool) {
+				for _, cc := range prefixSweep() {
+					if !yield(protoCase(cc)) {
+						return
+					}
+				}
+			}})
 			return gs
 		},
 	})
+}
+
+// prefixSweep: length-delimited payloads of every size across the 1->2 and 2->3 byte length-prefix boundaries
+// (122..134 and 16378..16390 bytes), as nested message, map entry, packed list and plain string, each followed
+// by another field: j2p writes the prefix, p2j reads it back.
+func prefixSweep() []*pj.ConvCase {
+	sub := &pj.Msg{Name: "Sub", Fields: []*pj.Field{pj.F("s", 1, pj.String)}}
+	t := &pj.Msg{Name: "T", Fields: []*pj.Field{pj.F("s", 1, pj.String), pj.FM("sub", 2, "Sub"), pj.F("m", 3, pj.String).MapOf(pj.String),
+		pj.F("pf", 4, pj.Fixed64).Repeated(), pj.FM("subs", 5, "Sub").Repeated(), pj.F("after", 6, pj.Int32)}}
+	f := &pj.File{Path: "main.proto", Pkg: pj.Pkg, Msgs: []*pj.Msg{sub, t}, Svcs: []*pj.Service{pj.OneMethodService("T", "T")}}
+	prog := &pj.Program{Name: "c13/prefix-sweep", Main: "main.proto", Files: []*pj.File{f}}
+	var out []*pj.ConvCase
+	var sizes []int
+	for l := 122; l <= 134; l++ {
+		sizes = append(sizes, l)
+	}
+	for l := 16378; l <= 16390; l++ {
+		sizes = append(sizes, l)
+	}
+	for _, where := range []string{"string", "sub", "map-entry", "packed", "list-elem"} {
+		for _, n := range sizes {
+			where, n := where, n
+			if where == "packed" && n%8 != 0 {
+				continue
+			}
+			out = append(out, &pj.ConvCase{Prog: prog, What: fmt.Sprintf("%s payload of %d bytes", where, n), Focus: "length-prefix:" + where,
+				Build: func(ref *pj.Ref) protoreflect.Message {
+					md := ref.Msg(pj.Pkg + ".T")
+					m := dynamicpb.NewMessage(md)
+					fs := md.Fields()
+					mkSub := func(payload int) protoreflect.Message {
+						sm := dynamicpb.NewMessage(fs.ByName("sub").Message())
+						l := payload - 2
+						if payload > 129 {
+							l = payload - 3
+						}
+						sm.Set(sm.Descriptor().Fields().ByName("s"), protoreflect.ValueOfString(strings.Repeat("p", l)))
+						return sm
+					}
+					switch where {
+					case "string":
+						m.Set(fs.ByName("s"), protoreflect.ValueOfString(strings.Repeat("s", n)))
+					case "sub":
+						m.Set(fs.ByName("sub"), protoreflect.ValueOfMessage(mkSub(n)))
+					case "map-entry":
+						l := n - 5
+						if n-5 > 127 {
+							l = n - 6
+						}
+						mp := m.Mutable(fs.ByName("m")).Map()
+						mp.Set(protoreflect.ValueOfString("a").MapKey(), protoreflect.ValueOfString("first"))
+						mp.Set(protoreflect.ValueOfString("k").MapKey(), protoreflect.ValueOfString(strings.Repeat("v", l)))
+					case "packed":
+						l := m.Mutable(fs.ByName("pf")).List()
+						for i := 0; i < n/8; i++ {
+							l.Append(protoreflect.ValueOfUint64(uint64(i) * 0x0101010101010101))
+						}
+					case "list-elem":
+						l := m.Mutable(fs.ByName("subs")).List()
+						l.Append(protoreflect.ValueOfMessage(mkSub(n)))
+						l.Append(protoreflect.ValueOfMessage(mkSub(3)))
+					}
+					m.Set(fs.ByName("after"), protoreflect.ValueOfInt32(7))
+					return m
+				}})
+		}
+	}
+	return out
 }
 
 type pdesc struct {
